@@ -53,6 +53,10 @@ func runConc(src sim.Source, o Opts, res *Result, plan concPlan) {
 				p = append(p, COp{Kind: "txn", Txn: genCTxn(src, cw, &nextTag)})
 			} else if src.Intn("wread", 6) == 5 {
 				p = append(p, genReadCOp(src, cw))
+			} else if src.Intn("inhandler", 8) == 7 {
+				nextTag++
+				wop := genWriteCOp(src, len(cw.keys), nextTag)
+				p = append(p, COp{Kind: "serve_write", Probe: src.Intn("probe", len(cw.probes)), Inner: wop.Kind, Key: wop.Key, Tag: wop.Tag})
 			} else {
 				nextTag++
 				p = append(p, genWriteCOp(src, len(cw.keys), nextTag))
